@@ -614,6 +614,7 @@ func (e *Engine) enterLoop(fr *Frame, l *Loop, pre *State) *State {
 	// init obligations in the pre-state
 	if fr.top && spec != nil {
 		env := e.envAt(fr, pre, l.pos)
+		env.rangeIdx = loopRangeIndex(l)
 		for i, inv := range spec.Invariants {
 			goal := e.evalClause(env, inv)
 			e.oblige("loop-init", fmt.Sprintf("loop%d/init[%s]", l.ord, clauseName(inv, i)), pre.guard, goal, l.pos)
@@ -650,6 +651,7 @@ func (e *Engine) enterLoop(fr *Frame, l *Loop, pre *State) *State {
 	// assume invariants
 	if fr.top && spec != nil {
 		env := e.envAt(fr, st, l.pos)
+		env.rangeIdx = loopRangeIndex(l)
 		var invs []Term
 		for _, inv := range spec.Invariants {
 			t := e.evalClause(env, inv)
@@ -739,6 +741,7 @@ func (e *Engine) loopBack(fr *Frame, l *Loop, st *State, from *ssa.BasicBlock) {
 	}
 	if l.spec != nil {
 		env := e.envAt(fr, st, l.pos)
+		env.rangeIdx = loopRangeIndex(l)
 		for i, inv := range l.spec.Invariants {
 			goal := e.evalClause(env, inv)
 			e.oblige("loop-preserve", fmt.Sprintf("loop%d/preserve[%s]@b%d", l.ord, clauseName(inv, i), from.Index), st.guard, goal, l.pos)
@@ -970,4 +973,16 @@ func (e *Engine) mergeIte(fr *Frame, b *ssa.BasicBlock, ins []edgeIn, st *State,
 		}
 	}
 	return st
+}
+
+// loopRangeIndex: the hidden index cell of a range loop (incremented in its header).
+func loopRangeIndex(l *Loop) *ssa.Alloc {
+	for _, in := range l.header.Instrs {
+		if ld, ok := in.(*ssa.UnOp); ok && ld.Op == token.MUL {
+			if al, ok := ld.X.(*ssa.Alloc); ok && al.Comment == "rangeindex" {
+				return al
+			}
+		}
+	}
+	return nil
 }
